@@ -899,6 +899,21 @@ impl Ty {
         }
 
         match (self, other) {
+            // we can't spread Ty::AlwaysJumps because of case like this:
+            // ```text
+            // if condition {
+            //      return true;
+            // } else {
+            //      // ... do stuff
+            //      42
+            // }
+            // ```
+            // the entire if statement should resolve to `{uint}`, and not to Ty::AlwaysJumps.
+            // this has to come before every other arm, so that the other branch alone decides
+            // the type (`nil` must stay `nil` and not become `?noeval`)
+            (Ty::Unknown | Ty::AlwaysJumps, other) | (other, Ty::Unknown | Ty::AlwaysJumps) => {
+                Some(other.clone())
+            }
             // numbers
             (Ty::UInt(0), Ty::UInt(0)) => Some(Ty::UInt(0)),
             (Ty::IInt(0) | Ty::UInt(0), Ty::IInt(0) | Ty::UInt(0)) => Some(Ty::IInt(0)),
@@ -1037,19 +1052,6 @@ impl Ty {
             // void singletons -> types
             (other, Ty::Type) | (Ty::Type, other) if other.is_zero_sized() => Some(Ty::Type),
 
-            // we can't spread Ty::AlwaysJumps because of case like this:
-            // ```text
-            // if condition {
-            //      return true;
-            // } else {
-            //      // ... do stuff
-            //      42
-            // }
-            // ```
-            // the entire if statement should resolve to `{uint}`, and not to Ty::AlwaysJumps
-            (Ty::Unknown | Ty::AlwaysJumps, other) | (other, Ty::Unknown | Ty::AlwaysJumps) => {
-                Some(other.clone())
-            }
             _ => None,
         }
     }
